@@ -3,6 +3,7 @@ package main
 import (
 	"bytes"
 	"fmt"
+	"strconv"
 	"strings"
 	"time"
 
@@ -177,6 +178,18 @@ func init() {
 			c, _ := genCase(r, cfg)
 			cases = append(cases, c)
 		}
+		// white space of every kind at the very beginning and end of a template: without keepFmt only blanks, tabs and
+		// line feeds are cut there; a carriage return, form feed, vertical tab, NEL or no-break space is static text
+		for _, ws := range []string{"\r", "\f", "\v", "\u00a0", "\u0085", " \r", "\r ", "\t\f", "\u2028", "\x00", " "} {
+			for _, keep := range []bool{false, true} {
+				for _, body := range [][]TNode{{Text{ws + "a"}, Print{Path: "si"}, Text{"b" + ws}}, {Text{ws}, Print{Path: "si"}, Text{ws}}, {Text{ws + "only text" + ws}}} {
+					c := &RCase{Tpls: []TplDef{{Key: "main", Src: Source(body), KeepFmt: keep, Ast: body}}, Meta: map[string]any{"edge-whitespace": fmt.Sprintf("%q", ws), "keepFmt": keep}}
+					c.Ops = []SOp{{Kind: "static", Name: "si", Val: int64(7)}, {Kind: "render", Key: "main"}}
+					cases = append(cases, c)
+					r.Dist["edge-whitespace"]++
+				}
+			}
+		}
 		// loops only to give indexed paths a counter
 		cfg2 := GenCfg{MaxDepth: 2, MaxNodes: 14, PreSuf: true, Loops: true}
 		for i := 0; i < r.N(1000, 30000); i++ {
@@ -204,6 +217,30 @@ func init() {
 		for i := 0; i < r.N(5000, 150000); i++ {
 			c, _ := genCase(r, cfg)
 			cases = append(cases, c)
+		}
+		// sizes at and around the widths of small integer types: the else branch renders iff there was NO iteration,
+		// the separator stands between all iterations — also for 255, 256, 257, 512 elements / counter values
+		for _, n := range []int{0, 1, 2, 255, 256, 257, 512, 513} {
+			lst := make([]string, n)
+			for i := range lst {
+				lst[i] = "e" + strconv.Itoa(i%10)
+			}
+			src := `{% for k, v := range lst sep , %}{%= k %}{% else %}E1{% endfor %}|{% for _, v := range lst %}.{% else %}E2{% endfor %}|{% for i := 0; i < n; i++ sep ; %}{%= i %}{% else %}E3{% endfor %}|{% for i := n; i > 0; i-- %}x{% else %}E4{% endfor %}`
+			c := &RCase{Tpls: []TplDef{{Key: "main", Src: src, KeepFmt: true}}, Meta: map[string]any{"loop-size": n}}
+			c.Ops = []SOp{{Kind: "strs", Name: "lst", Val: lst}, {Kind: "static", Name: "n", Val: int64(n)}, {Kind: "render", Key: "main"}, {Kind: "render", Key: "main"}}
+			cases = append(cases, c)
+			r.Dist["loop-size"]++
+		}
+		// separators and iterations that are cut short: an iteration ended by continue / break / lazybreak is an
+		// iteration — the separator stands between every two iterations that STARTED, wherever the cut ones are
+		for _, lst := range [][]string{{"a", "b", "c"}, {"a", "a", "b"}, {"b", "a", "c"}, {"b", "c", "a"}, {"a"}, {"a", "a"}, {"b", "b"}, {}} {
+			for _, instr := range []string{`{% continue if v == "a" %}`, `{% break if v == "a" %}`, `{% lazybreak if v == "a" %}`, `{% if v == "a" %}{% continue %}{% endif %}`, `{% continue %}`, ``} {
+				src := `{% for k, v := range lst sep ; %}` + instr + `{%= v %}{% else %}E{% endfor %}|{% for i := 0; i < 3; i++ separator , %}{% continue if i == 0 %}{%= i %}{% endfor %}|{% for i := 0; i < 3; i++ sep , %}{% continue if i == 1 %}{%= i %}{% endfor %}`
+				c := &RCase{Tpls: []TplDef{{Key: "main", Src: src, KeepFmt: true}}, Meta: map[string]any{"separator-with": instr, "list": lst}}
+				c.Ops = []SOp{{Kind: "strs", Name: "lst", Val: lst}, {Kind: "render", Key: "main"}, {Kind: "render", Key: "main"}}
+				cases = append(cases, c)
+				r.Dist["separator-and-cut-iterations"]++
+			}
 		}
 		runSessions(r, cases, outputDiffers)
 	}
@@ -251,6 +288,40 @@ func init() {
 								cases = append(cases, c)
 								r.Dist["enumerated-nest"]++
 							}
+						}
+					}
+				}
+			}
+		}
+		// a depth pending in the middle loop, followed in the same body by (a) a loop that makes no iteration and whose
+		// for-else branch signals break / continue / lazybreak, (b) an include tag (of a plain template, of one whose own
+		// loop leaves a depth over, of one that ends by exit): the pending depth is neither lost nor changed by them
+		zero := []string{"{% for c := 0; c < 0; c++ %}c{% else %}{% break %}{% endfor %}", "{% for c := 0; c < 0; c++ %}c{% else %}{% continue %}{% endfor %}",
+			"{% for _, c := range nope %}c{% else %}{% break %}{% endfor %}", "{% for _, c := range nope %}c{% else %}e{% lazybreak %}{% endfor %}", "{% for c := 5; c < 0; c++ %}c{% else %}e{% endfor %}"}
+		subs14 := []string{"s", "s{% for q := 0; q < 2; q++ %}{%= q %}{% break 2 %}{% endfor %}t", "s{% for q := 0; q < 2; q++ %}{% lazybreak %}{%= q %}{% endfor %}t", "s{% exit %}n", "s{% lazybreak %}t"}
+		for _, ka := range "cr" {
+			for _, kb := range "cr" {
+				for _, mid := range []string{"", "{% lazybreak %}", "{% lazybreak 2 %}", "{% lazybreak 3 %}", "{% lazybreak 2 if b == 1 %}"} {
+					var tails []string
+					tails = append(tails, zero...)
+					for si := range subs14 {
+						tails = append(tails, "<{% include sub"+strconv.Itoa(si)+" %}>", "<{% include missing sub"+strconv.Itoa(si)+" %}>{% for c := 0; c < 2; c++ %}{%= c %}{% endfor %}")
+					}
+					for _, tail := range tails {
+						for _, midFirst := range []bool{true, false} {
+							body := mid + tail + "x"
+							if !midFirst {
+								body = tail + mid + "x"
+							}
+							src := open_(byte(ka), "a") + "[a{%= a %}" + open_(byte(kb), "b") + "(b{%= b %}" + body + ")" + "{% endfor %}]" + "{% endfor %}!"
+							c := &RCase{Meta: map[string]any{"nest": string(ka) + string(kb), "mid": mid, "tail": tail}}
+							for si, sub := range subs14 {
+								c.Tpls = append(c.Tpls, TplDef{Key: "sub" + strconv.Itoa(si), Src: sub, KeepFmt: true})
+							}
+							c.Tpls = append(c.Tpls, TplDef{Key: "main", Src: src, KeepFmt: true})
+							c.Ops = []SOp{{Kind: "strs", Name: "lst", Val: []string{"p", "q", "r"}}, {Kind: "render", Key: "main"}}
+							cases = append(cases, c)
+							r.Dist["pending-depth-then-else-or-include"]++
 						}
 					}
 				}
@@ -305,7 +376,12 @@ func init() {
 			"s{% for j := 0; j < 2; j++ %}{% if j == 1 %}{% exit %}{% endif %}{%= j %}{% endfor %}t", "s"}
 		hosts := []string{"a<{% include sub %}>tail", "a{% for i := 0; i < 2; i++ %}<{% include sub %}>{% endfor %}tail", "a{% for _, h := range lst %}<{% include sub %}>{%= h %}{% endfor %}tail",
 			"a{% jsonquote %}\"{% include sub %}\"{% endjsonquote %}tail", "a{% for i := 0; i < 2; i++ %}{% if i == 0 %}<{% include sub %}>{% endif %}{%= i %}{% endfor %}tail{%= si %}",
-			"a{% for i := 0; i < 2; i++ %}<{% include sub %}>{% endfor %}{% for k := 0; k < 2; k++ %}{%= k %}{% endfor %}tail"}
+			"a{% for i := 0; i < 2; i++ %}<{% include sub %}>{% endfor %}{% for k := 0; k < 2; k++ %}{%= k %}{% endfor %}tail",
+			// loops of the host AFTER the include tag (the loop objects of the included template are reused by them)
+			"a<{% include sub %}>{% for _, h := range lst %}{%= h %}{% endfor %}{% for k, h := range lst sep , %}{%= k %}{% endfor %}tail",
+			"a<{% include sub %}><{% include sub %}>{% for i := 0; i < 2; i++ %}{% for _, h := range lst %}{%= h %}{% endfor %};{% endfor %}tail",
+			// many includes on one context (depth accounting must return to where it was after each, however it ended)
+			"a{% for i := 0; i < 200; i++ %}{% include sub %}{% endfor %}tail", "a{% for i := 0; i < 70; i++ %}{% for _, h := range lst %}{% include sub %}{% endfor %}{% endfor %}tail"}
 		for _, sub := range subs {
 			for _, host := range hosts {
 				c := &RCase{Tpls: []TplDef{{Key: "sub", Src: sub, KeepFmt: true}, {Key: "main", Src: host, KeepFmt: true}}, Meta: map[string]any{"sub": sub, "host": host}}
